@@ -17,10 +17,14 @@ Definition mul_exp_range_class (e1 e2 : Z) : bool := in_isize e1 && in_isize e2 
 Definition shift_approx (k : Z) (a : approx) : approx :=
   match a with AExact s e => AExact s (e + k) | AInexact s e r => AInexact s (e + k) r end.
 
+Definition wrap_approx (a : approx) : approx :=
+  match a with AExact s e => AExact s (wrap_isize e) | AInexact s e r => AInexact s (wrap_isize e) r end.
+
 (** Context::mul: [checked] = overflow checks on (debug / verif profile).  Outside the class: C03's model.  Inside: the sum
-    wraps before Repr::new and the rounding, which only ever add small amounts to it *)
+    wraps, and so does the small amount the rounding adds to it (repr.rs [repr.exponent + shift as isize]): the stored exponent
+    is the true one modulo 2^64 *)
 Definition ctx_mul_build (checked : bool) (B p : Z) (m : mode) (s1 e1 s2 e2 : Z) : result approx :=
   if mul_exp_range_class e1 e2 then
     if checked then Panic Undocumented
-    else Ok (shift_approx (wrap_isize (e1 + e2)) (ctx_mul_n B p m s1 0 s2 0))
+    else Ok (wrap_approx (shift_approx (e1 + e2) (ctx_mul_n B p m s1 0 s2 0)))
   else Ok (ctx_mul_n B p m s1 e1 s2 e2).
